@@ -25,8 +25,11 @@ from coqterm import cstr, cbool, copt, clist
 IMPORTS = "From XV Require Import Base.Str Model.Context Model.ContextCorr."
 
 # ------------------------------------------------------------------ the pool of models
-def F(name, kind="elem", type="str", lst=False, ns=None):
-    return {"name": name, "kind": kind, "type": type, "list": lst, "ns": ns}
+def F(name, kind="elem", type="str", lst=False, ns=None, pytype=None, md=None):
+    """pytype / md: the Python annotation and extra field metadata of a field whose
+    binding is outside the modelled fragment (the class is then only used by opaque
+    operations; the model still needs its names and namespaces)"""
+    return {"name": name, "kind": kind, "type": type, "list": lst, "ns": ns, "pytype": pytype, "md": md}
 
 
 def C(cid, name, ns=None, tns=None, parent=None, own=(), glob=True, broken=False):
@@ -40,6 +43,7 @@ STATIC = [
     C(3, "PB", ns="urn:b", own=[F("leaf", type=1), F("t")]),
     C(4, "Mid", own=[F("leaf", type=1), F("w")]),
     C(5, "PC", ns="urn:c", own=[F("mid", type=4), F("alien", type=1, ns="urn:x")]),
+    C(18, "Ext", ns="urn:h", own=[F("lx")]),                       # shares its qname with class 19, created earlier
     C(6, "Base", ns="urn:h", own=[F("b")]),
     C(7, "Der", parent=6, own=[F("d")]),
     C(8, "Der2", ns="urn:h2", parent=6, own=[F("e")]),
@@ -52,6 +56,16 @@ STATIC = [
     C(15, "Tgt", tns="urn:t", own=[F("z")]),
     C(16, "Dep", ns="urn:p", own=[F("br", type=14), F("pleaf", type=1)]),
     C(17, "WildT", ns="urn:a", own=[F("tany", "wild", "any", True, "##targetNamespace")]),
+    C(19, "Ext", ns="urn:h", parent=6, own=[F("ex")]),                         # Ext(Base): same target qname as class 18
+    # classes whose binding is outside the modelled fragment: used by opaque operations only
+    C(30, "Alpha", own=[F("ax", pytype="Optional[int]")]),
+    C(31, "Beta", own=[F("by", pytype="Optional[int]")]),
+    C(32, "UHolder", ns="urn:u", own=[F("item", pytype='Optional[Union["_C30", "_C31"]]'), F("uleaf", type=1)]),
+    C(33, "Num", own=[F("n", pytype="Optional[int]"), F("fl", "attr", pytype="Optional[float]")]),
+    C(34, "Tok", ns="urn:u", own=[F("toks", lst=True, pytype="List[int]", md={"tokens": True}), F("tleaf", type=1)]),
+    C(35, "Cmp", ns="urn:u", own=[F("choice", lst=True, pytype="List[object]",
+                                    md={"choices": [["ca", "int"], ["cb", "str"], ["cl", "_C1"]]})]),
+    C(36, "Nil", ns="urn:u", own=[F("nv", pytype="Optional[str]", md={"nillable": True}), F("nleaf", type=1)]),
 ]
 DYNAMIC = [
     C(20, "Late", ns="urn:late", own=[F("x")]),
@@ -453,6 +467,44 @@ def build_ops(ck, fresh_ser, fresh_enc):
     add("dec-auto:x", (), kind="dec", data={"x": "1"}, clazz=None)
     add("dec-auto:nomatch", (), kind="dec", data={"nosuchfield": "1"}, clazz=None)
     add("dec:Holder-der", (), kind="dec", data={"item": {"b": "q", "d": "r"}}, clazz=9)
+    # opaque operations: binding features outside the modelled fragment
+    U = 'xmlns="urn:u"'
+    for tag, kind, clazz, doc in (
+            ("UHolder-alpha", "oparse", 32, f"<UHolder {U}><item><ax>1</ax></item><uleaf><x>u</x></uleaf></UHolder>"),
+            ("UHolder-beta", "oparse", 32, f"<UHolder {U}><item><by>2</by></item></UHolder>"),
+            ("UHolder-fail", "oparse", 32, f"<UHolder {U}><item><ax>abc</ax></item></UHolder>"),
+            ("UHolder-alpha", "oround", 32, f"<UHolder {U}><item><ax>1</ax></item><uleaf><x>u</x></uleaf></UHolder>"),
+            ("Num-abc", "oparse", 33, "<Num><n>abc</n></Num>"),
+            ("Num-7", "oparse", 33, '<Num fl="1.5"><n>7</n></Num>'),
+            ("Num-7", "oround", 33, '<Num fl="1.5"><n>7</n></Num>'),
+            ("Num-abc", "ojparse", 33, '{"n": "abc"}'),
+            ("Num-7", "ojround", 33, '{"n": 7, "fl": 1.5}'),
+            ("Tok", "oparse", 34, f"<Tok {U}><toks>1 2 3</toks><tleaf><x>t</x></tleaf></Tok>"),
+            ("Tok", "oround", 34, f"<Tok {U}><toks>1 2 3</toks><tleaf><x>t</x></tleaf></Tok>"),
+            ("Tok-bad", "oparse", 34, f"<Tok {U}><toks>1 x 3</toks></Tok>"),
+            ("Cmp", "oparse", 35, f"<Cmp {U}><ca>1</ca><cb>s</cb><cl><x>c</x></cl><ca>2</ca></Cmp>"),
+            ("Cmp", "oround", 35, f"<Cmp {U}><ca>1</ca><cb>s</cb><cl><x>c</x></cl><ca>2</ca></Cmp>"),
+            ("Nil", "oparse", 36, f'<Nil {U} xmlns:xsi="{XSI}"><nv xsi:nil="true"/><nleaf><x>n</x></nleaf></Nil>'),
+            ("Nil", "oround", 36, f'<Nil {U} xmlns:xsi="{XSI}"><nv xsi:nil="true"/><nleaf><x>n</x></nleaf></Nil>'),
+            ("Leaf-in-u", "oparse", 1, f"<Leaf {U}><x>q</x></Leaf>")):
+        add(f"{kind}:{tag}", (), kind=kind, doc=doc, clazz=clazz)
+    for c in (30, 32, 33, 34, 36, 19, 18):     # (35: a compound field is described only as far as its namespace goes)
+        add(f"build:{c},urn:q", (), kind="call", name="build", args=[c, "urn:q"])
+        add(f"build:{c},None", (), kind="call", name="build", args=[c, None])
+    # two classes with one qualified name: xsi:type substitution and auto-location
+    hx = {"q": "{urn:h}Holder", "attrs": [], "xsi": None, "text": None, "kids": [
+        {"q": "{urn:h}item", "attrs": [], "xsi": "{urn:h}Ext", "text": None, "kids": [
+            {"q": "{urn:h}b", "attrs": [], "xsi": None, "text": "xb", "kids": []},
+            {"q": "{urn:h}ex", "attrs": [], "xsi": None, "text": "xe", "kids": []}]}]}
+    text, ev = render_doc(hx)
+    add("parse:Holder-xsi-Ext", (), kind="parse", doc=text, events=ev, clazz=9)
+    add("find_type:{urn:h}Ext", (), kind="call", name="find_type", args=["{urn:h}Ext"])
+    add("find_types:{urn:h}Ext", (), kind="call", name="find_types", args=["{urn:h}Ext"])
+    add("find_subclass:Base,Ext", (), kind="call", name="find_subclass", args=[6, "{urn:h}Ext"])
+    ex = {"q": "{urn:h}Ext", "attrs": [], "xsi": None, "text": None, "kids": [
+        {"q": "{urn:h}b", "attrs": [], "xsi": None, "text": "xb", "kids": []}]}
+    text, ev = render_doc(ex)
+    add("parse-auto:Ext", (), kind="parse", handler="native", doc=text, events=ev, clazz=None)
     # the context's public methods called directly
     for q in ("Leaf", "{urn:late}Late", "{urn:h}Base", "{urn:h}LateDer", "{urn:k}Broken", "XmlParser", "{urn:t}Tgt",
               "{urn:o}Own", "{urn:none}Nobody"):
@@ -486,7 +538,12 @@ MEDIUM = REDUCED + ["parse:PA-as-PB", "reset", "parse:WildO-other", "parse:WildO
                     "parse:WildT-z", "parse:Holder-xsi-LateDer", "find_subclass:Der,LateDer", "dec:Holder-der", "jparse:PA",
                     "ser:PC", "parse:PC", "ser:Wild", "parse:Wild", "ser:Holder", "find_types:Leaf", "names_match:Broken",
                     "build_xsi_cache", "by_fields:x", "fetch:Base,xsi=Der2", "build:Leaf,urn:q", "ser:Leaf", "parse:Leaf",
-                    "parse-auto:Leaf", "ser:WildO", "ser:WildT", "parse:WildT", "ser:Mid", "jser:PA", "jparse-auto:PA"]
+                    "parse-auto:Leaf", "ser:WildO", "ser:WildT", "parse:WildT", "ser:Mid", "jser:PA", "jparse-auto:PA",
+                    "parse:Holder-xsi-Ext", "find_type:{urn:h}Ext", "find_subclass:Base,Ext", "parse-auto:Ext",
+                    "oparse:UHolder-alpha", "oparse:UHolder-fail", "oround:UHolder-alpha", "oparse:Num-abc", "oparse:Num-7",
+                    "ojparse:Num-abc", "oparse:Tok", "oparse:Tok-bad", "oround:Cmp", "oparse:Nil", "oround:Nil",
+                    "oparse:Leaf-in-u"]
+OPAQUE = ("oparse", "oround", "ojparse", "ojround")
 ENVS = [{"env": "define", "cid": 20, "bump": False}, {"env": "define", "cid": 22, "bump": False},
         {"env": "define", "cid": 21, "bump": True}]
 CLOSED = ["ser:Own", "parse:Own", "parse-auto:Own", "jser:Own", "dec:Own", "ser:Broken", "build:Broken",
@@ -518,8 +575,11 @@ def gen_sequences(ck, ops):
     for n in range(1, maxlen + 1):
         # length 1: every operation; length 2: all ordered pairs over a medium alphabet (thorough: over
         # everything); length 3: a reduced alphabet; length 4 (thorough): a smaller one still
-        alpha_x = {1: everything, 2: medium if ck.quick else everything, 3: alpha if ck.quick else medium,
-                   4: alpha}[n]
+        alpha3 = alpha + [{"op": by_tag[t]} for t in ("parse:PA-as-PB", "reset", "parse:Holder-xsi-Ext",
+                                                        "find_type:{urn:h}Ext", "oparse:UHolder-fail", "oparse:Num-abc",
+                                                        "parse:WildO-other", "parse:WildO-same")]
+        alpha_x = {1: everything, 2: medium if ck.quick else everything, 3: alpha if ck.quick else alpha3,
+                   4: alpha[:8] + ENVS[:2]}[n]
         for tup in itertools.product(alpha_x, repeat=n):
             if "env" in tup[-1]:
                 continue        # a trailing environment change has nothing to compare
@@ -587,17 +647,28 @@ def gen_sequences(ck, ops):
 _NATLIST = re.compile(r"=\s*(\[[^\]]*\])\s*:\s*list nat", re.S)
 
 
-def coq_summaries(tag, defs, cases, shard=150, timeout=1500, fn="case_summary"):
-    """case_summary of every case (Model/ContextCorr.v), sharded, in parallel."""
+def coq_summaries(tag, defs, cases, shard=250, timeout=1500, fn="case_summary", ctype="case"):
+    """case_summary of every case (Model/ContextCorr.v).  The shared definitions (world,
+    operations, interned results and access logs) are compiled once into a module; the
+    shards only import it and evaluate, in parallel."""
     os.makedirs(common.CORR, exist_ok=True)
+    dname = f"cases_{tag}_defs"
+    dpath = os.path.join(common.CORR, dname + ".v")
+    with open(dpath, "w") as f:
+        f.write("\n".join([IMPORTS, "From Coq Require Import NArith List Bool.", "Import ListNotations.",
+                           "Open Scope N_scope.", defs]) + "\n")
+    rc, so, se = common._coqc(dpath, timeout)
+    if rc != 0:
+        raise common.BuildError(os.path.relpath(dpath, common.COQ), so + se)
     shards = [cases[i:i + shard] for i in range(0, len(cases), shard)] or [[]]
     paths = []
     for k, sh in enumerate(shards):
         path = os.path.join(common.CORR, f"cases_{tag}_{k}.v")
         with open(path, "w") as f:
-            f.write("\n".join([IMPORTS, "From Coq Require Import NArith List Bool.", "Import ListNotations.",
-                               "Open Scope N_scope.", defs,
-                               "Definition the_cases : list case := [", ";\n".join(sh), "].",
+            f.write("\n".join([IMPORTS, f"From XV Require Import Corr.{dname}.",
+                               "From Coq Require Import NArith List Bool.", "Import ListNotations.",
+                               "Open Scope N_scope.",
+                               f"Definition the_cases : list {ctype} := [", ";\n".join(sh), "].",
                                f"Eval vm_compute in ({'flat_map' if fn == 'case_diag' else 'map'} {fn} the_cases)."]) + "\n")
         paths.append(path)
     with cf.ThreadPoolExecutor(max_workers=16) as ex:
@@ -610,10 +681,10 @@ def coq_summaries(tag, defs, cases, shard=150, timeout=1500, fn="case_summary"):
         if not m:
             raise common.BuildError(os.path.relpath(paths[k], common.COQ), "unparsable output: " + so[-500:])
         vals = [int(x) for x in re.findall(r"\d+", m.group(1))]
-        if fn == "case_summary" and len(vals) != len(shards[k]):
+        if fn != "case_diag" and len(vals) != len(shards[k]):
             raise common.BuildError(os.path.relpath(paths[k], common.COQ), "wrong number of summaries")
         out += vals
-    for p in paths:
+    for p in paths + [dpath]:
         for ext in (".v", ".vo", ".vok", ".vos", ".glob"):
             try:
                 os.remove(p[:-2] + ext)
@@ -700,7 +771,8 @@ def run(ck: Check):
     for d in DYNAMIC:
         defs.append(f"Definition cd_{d['cid']} : cdesc := {c_class(d)}.")
     for i, o in enumerate(ops):
-        defs.append(f"Definition op_{i} : op := {c_op(o)}.")
+        if o["kind"] not in OPAQUE:
+            defs.append(f"Definition op_{i} : op := {c_op(o)}.")
     rint, tint = Interner("r_", "res"), Interner("t_", "list otev")
 
     def build_cases(seqs_, runs_):
@@ -715,6 +787,15 @@ def run(ck: Check):
                         steps.append("StEnv EImport")
                     continue
                 calls_ += 1
+                kind = ops[st["op"]]["kind"]
+                for side in ("ts", "tf"):
+                    if kind in OPAQUE and any(e[0] == "m" for e in out[side]):
+                        raise RuntimeError(f"opaque operation {ops[st['op']]['tag']} calls {out[side]}: not replayable")
+                    out[side] = [e for e in out[side] if e[0] != "m"]
+                if kind in OPAQUE:
+                    steps.append(f"StOpq {rint(c_res(out['shared']))} {rint(c_res(out['fresh']))} "
+                                 f"{tint(c_otrace(out['ts']))} {tint(c_otrace(out['tf']))}")
+                    continue
                 ordered = ops[st["op"]]["kind"] not in ("dec", "jparse")
                 steps.append(f"StOp op_{st['op']} {cbool(ordered)} {rint(c_res(out['shared']))} {rint(c_res(out['fresh']))} "
                              f"{tint(c_otrace(out['ts']))} {tint(c_otrace(out['tf']))}")
@@ -737,24 +818,36 @@ def run(ck: Check):
                     f"coq at {time.time() - ck.t0:.0f}s; {len(rint.ids)} distinct results, {len(tint.ids)} distinct access logs")
 
     def shrink(seq, bad):
-        """Delta debugging by single-step removal: `bad(summary)` must stay true.
-        Returns (sequence, its run, its summary)."""
+        """Delta debugging (ddmin over chunks, plus all prefixes): `bad(summary)` must
+        stay true.  Returns (sequence, its run, its summary); bounded in rounds."""
         cur, cur_run, cur_sum = seq, None, None
-        for _ in range(12):
-            cands = []
-            for k in range(len(cur)):
-                c = cur[:k] + cur[k + 1:]
-                if c and "op" in c[-1] and valid(c, ops):
-                    cands.append(c)
-            if not cands:
+        n = 2
+        for _ in range(8):
+            if len(cur) < 2:
                 break
-            r2 = run_impl("impl_c14.py", impl_payload(ops, cands), timeout=600)
-            cs, _, _ = build_cases(cands, r2["runs"])
+            chunk = max(1, len(cur) // n)
+            cands = [cur[:k] for k in range(1, len(cur))]
+            for start in range(0, len(cur), chunk):
+                cands.append(cur[:start] + cur[start + chunk:])
+            cands = [c for c in cands if c and "op" in c[-1] and valid(c, ops)]
+            uniq = []
+            for c in cands:
+                if c not in uniq:
+                    uniq.append(c)
+            if not uniq:
+                break
+            r2 = run_impl("impl_c14.py", impl_payload(ops, uniq), timeout=600)
+            cs, _, _ = build_cases(uniq, r2["runs"])
             sm = coq_summaries("c14s", all_defs(), cs)
-            hit = [k for k, v in enumerate(sm) if bad(v)]
-            if not hit:
+            hit = sorted((len(uniq[k]), k) for k, v in enumerate(sm) if bad(v))
+            if hit:
+                k = hit[0][1]
+                cur, cur_run, cur_sum = uniq[k], r2["runs"][k], sm[k]
+                n = max(n - 1, 2)
+            elif chunk == 1:
                 break
-            cur, cur_run, cur_sum = cands[hit[0]], r2["runs"][hit[0]], sm[hit[0]]
+            else:
+                n = min(len(cur), n * 2)
         return cur, cur_run, cur_sum
 
     # ---- verdicts
